@@ -71,6 +71,9 @@ def as_program(tree):
 
 
 # ------------------------------------------------------------------------------------------- precedence / parentheses
+WRAP_PAIRS = [(a, b) for a in range(7) for b in range(a + 1, 7)]
+
+
 def make_prec(k0, pool1, pool2, wrap):
     """Trees of 2 (pool2 None) or 3 operators rooted at kind k0; printed minimally (+ one redundant pair when wrap)."""
     n1 = G.n_leaves([k0])
@@ -87,14 +90,18 @@ def make_prec(k0, pool1, pool2, wrap):
             slots.append(b2)
         else:
             pre(k2 == 0 and s2 == 0)
-        wi = pick(w, list(range(9))) if wrap else None
-        if not wrap:
+        if wrap == 2:
+            wi = pick(w, WRAP_PAIRS)
+        elif wrap:
+            wi = pick(w, list(range(9)))
+        else:
+            wi = None
             pre(w == 0)
         with NoTracing():
             tree, valid = G.build(kinds, slots)
             prog = as_program(tree)
             toks, _noline, n_expr = S.tokens(prog, wrap_at=wi)
-            if wrap and wi >= n_expr:
+            if wrap and max(wi if wrap == 2 else (wi,)) >= n_expr:
                 return True
             src = S.render(toks)
             out = parse_outcome(src)
@@ -120,7 +127,7 @@ def prec_replay(k0, pool1, pool2, wrap):
             kinds.append(pool2[k2])
             slots.append(s2)
         tree, valid = G.build(kinds, slots)
-        return {"source": S.render(S.tokens(as_program(tree), wrap_at=(w if wrap else None))[0]),
+        return {"source": S.render(S.tokens(as_program(tree), wrap_at=(WRAP_PAIRS[w] if wrap == 2 else (w if wrap else None)))[0]),
                 "operators": [G.NAMES[k] for k in kinds], "valid": valid}
     return rp
 
@@ -375,6 +382,27 @@ def make_parens_prog(src):
         return True
     parens_case.__annotations__ = {"w": int, "return": bool}
     return parens_case
+
+
+def make_parens_prog2(src):
+    """Two redundant pairs of parentheses at two expression positions (nested or side by side)."""
+    def parens2_case(w1, w2):
+        with NoTracing():
+            tree, toks, noline, n_expr, want = prog_info(src)
+        a = pick_range(w1, n_expr)
+        b = pick_range(w2, n_expr)
+        pre(a < b)
+        with NoTracing():
+            text = S.render(S.tokens(tree, wrap_at=(a, b))[0])
+            out = parse_outcome(text)
+            cover("judged")
+            if out[0] != "tree":
+                return "redundant parentheses at expressions %d and %d: engine raises %s for %r" % (a, b, out[1], text[:300])
+            if out[1] != want:
+                return "redundant parentheses at expressions %d and %d change the tree: %r" % (a, b, text[:300])
+        return True
+    parens2_case.__annotations__ = {"w1": int, "w2": int, "return": bool}
+    return parens2_case
 
 
 def parens_replay(src):
@@ -786,6 +814,19 @@ def harnesses():
             budget=120, require=("judged",), replay=prec_replay(k0, allk, None, True),
             tier="quick" if k0 in G.REPRESENTATIVES_QUICK else "thorough",
             bounds=["as prec.pair, plus one redundant pair of parentheses around any one sub-expression (operands, targets, callees)"]))
+    rq0 = G.REPRESENTATIVES_QUICK
+    for k0 in reps:
+        nm = kind_id(k0)
+        hs.append(Harness(
+            id="C13.parens.pair2.%s" % nm, fn=make_prec(k0, rq0 if k0 in rq0 else reps, None, 2), group="parens.pair", functions=FNS, per_path=10,
+            budget=300, require=("judged",), replay=prec_replay(k0, rq0 if k0 in rq0 else reps, None, 2),
+            tier="quick" if k0 in rq0 else "thorough",
+            bounds=["root %s, second operator one representative per binding class, TWO redundant pairs of parentheses at any two "
+                    "expression positions (nested or side by side)" % G.NAMES[k0]]))
+        hs.append(Harness(
+            id="C13.parens.triple2.%s" % nm, fn=make_prec(k0, rq0, rq0, 2), group="parens.triple", functions=FNS, per_path=10,
+            budget=3000, require=("judged",), replay=prec_replay(k0, rq0, rq0, 2), tier="thorough",
+            bounds=["root %s, two more representative operators, two redundant pairs of parentheses" % G.NAMES[k0]]))
     # precedence: triples
     rq = G.REPRESENTATIVES_QUICK
     for k0 in reps:
@@ -912,6 +953,11 @@ def harnesses():
           hs.append(Harness(id="C13.parens.prog.%s" % n, fn=make_parens_prog(src), group="parens.prog", functions=FNS, per_path=20,
                           budget=300 if not big else 1500, tier=tier, require=("judged",), replay=parens_replay(src),
                           bounds=["one redundant pair of parentheses around any one expression of %s" % n]))
+        if n_expr >= 2 and n.startswith("snip"):
+          hs.append(Harness(id="C13.parens.prog2.%s" % n, fn=make_parens_prog2(src), group="parens.prog", functions=FNS, per_path=20,
+                            budget=600, tier="quick", require=("judged",),
+                            replay=lambda w1, w2, _s=src: {"source": S.render(S.tokens(prog_info(_s)[0], wrap_at=(w1, w2))[0])},
+                            bounds=["two redundant pairs of parentheses at any two expression positions of %s" % n]))
         hs.append(Harness(id="C13.roundtrip.%s" % n, fn=make_roundtrip(src), group="roundtrip", functions=FNS, per_path=20, budget=200,
                           tier=tier, require=("judged",), bounds=["every top-level statement of %s: parse(print(tree)) == tree" % n]))
         if has_brackets:
